@@ -13,25 +13,25 @@ func init() {
 	register(&Rule{ID: "E-ASSERT", Props: []string{"C03"}, Floor: 100,
 		Doc: "every type assertion in API-reachable code is comma-ok (or part of a type switch), unless its operand is read from a map allocated in the same function all of whose stored values have the asserted static type",
 		Run: ruleEAssert})
-	register(&Rule{ID: "E-SLICE2", Props: []string{"C03", "C12"}, Floor: 3,
+	register(&Rule{ID: "E-SLICE2", Props: []string{"C03", "C12"}, Floor: 1,
 		Doc: "every slice expression x[lo:hi] of the evaluator with two non-constant bounds is dominated by a comparison that orders exactly those two values (lo <= hi)",
 		Run: ruleESlice2})
-	register(&Rule{ID: "E-CONSTINDEX", Props: []string{"C03"}, Floor: 15,
+	register(&Rule{ID: "E-CONSTINDEX", Props: []string{"C03"}, Floor: 8,
 		Doc: "every constant index or constant lower slice bound on a slice in the evaluator is dominated by a length fact that puts it in range (len(x)==0 exit, len(x)!=2 exit, make(_, len(y)) with such a fact on y)",
 		Run: ruleEConstIndex})
-	register(&Rule{ID: "E-REFLECT-NIL", Props: []string{"C03"}, Floor: 4,
+	register(&Rule{ID: "E-REFLECT-NIL", Props: []string{"C03"}, Floor: 1,
 		Doc: "every method call on an interface-typed field inside an Error() method (reflect.Type, wrapped error) is dominated by a non-nil test of the same field, or every construction site stores a value known to be non-nil",
 		Run: ruleEReflectNil})
-	register(&Rule{ID: "E-DIVISOR", Props: []string{"C03", "C12"}, Floor: 4,
+	register(&Rule{ID: "E-DIVISOR", Props: []string{"C03", "C12"}, Floor: 2,
 		Doc: "every integer division or remainder with a non-constant divisor in the evaluator has a divisor that is non-zero by a dominating sign/zero fact, or derives from the step of a slice node, whose constructions are all dominated by the step != 0 edge in the parser (P-STEP-ZERO)",
 		Run: ruleEDivisor})
-	register(&Rule{ID: "P-STEP-ZERO", Props: []string{"C12", "C08", "C03"}, Floor: 2,
+	register(&Rule{ID: "P-STEP-ZERO", Props: []string{"C12", "C08", "C03"}, Floor: 1,
 		Doc: "every construction of a SliceStep node stores a step that is non-zero: a non-zero constant, or a parsed value on a path dominated by the false edge of `step == 0`, whose true edge returns *InvalidSliceStepError",
 		Run: rulePStepZero})
 	register(&Rule{ID: "E-NO-BYTE-INDEX", Props: []string{"C11"}, Floor: 1,
 		Doc: "no byte indexing s[i] of a string in the evaluator: every access to string content goes through unicode/utf8 or strings",
 		Run: ruleENoByteIndex})
-	register(&Rule{ID: "E-NONNIL-SLICE", Props: []string{"C18", "C01"}, Floor: 20,
+	register(&Rule{ID: "E-NONNIL-SLICE", Props: []string{"C18", "C01"}, Floor: 17,
 		Doc: "no []any or map[string]any that the evaluator converts into a result can be a nil slice/map originating in the function itself (a nil slice serialises as null instead of [])",
 		Run: ruleENonNilSlice})
 }
